@@ -768,6 +768,16 @@ class Unit:
         else:
             f = get_fn(self.file, self.impl, self.fn_rx)
         body = f['body']
+        # R32: module-level numeric constants of the same file (`const NAME: f64 = <literal>;`) are inlined (the extracted function would otherwise refer to an item outside the assembly)
+        if self.text is None:
+            try:
+                src_all = strip_comments(load(self.file))
+            except Exception:
+                src_all = ''
+            for cm in re.finditer(r'(?m)^\s*(?:pub(?:\([a-z]+\))?\s+)?const\s+([A-Z][A-Z0-9_]*)\s*:\s*(f64|f32|u64|u32|usize|i64|i32)\s*=\s*(-?[0-9][0-9_.eE+\-]*(?:_?(?:f64|f32|u64|u32|usize|i64|i32))?)\s*;', src_all):
+                nm, ty, val = cm.group(1), cm.group(2), cm.group(3)
+                body, k = re.subn(r'(?<![\w:.])%s\b(?!\s*[:(!])' % re.escape(nm), val, body)
+                rules.hit('R32', k)
         if self.sig is not None and norm_ws(self.sig) != f['sig']:
             # R30c: a signature that differs from the expected one only in the NAMES of its parameters: the parameters are alpha-renamed in the body to the names the contract uses
             # (capture-free: a new name must not occur in the body already)
